@@ -459,6 +459,11 @@ package git
 // size: recorded finding (same root cause as exact-size above).
 //@ func (*Repository).NewBatchObjectIter$2
 //@   modifies everything
+// C10 "never hangs": however the stage ends -- end of input, a read or parse
+// error, a cancelled context -- it closes the channel its consumer waits on,
+// exactly once (Next() learns the pipeline's verdict only after that).
+//@   ghost nClose counts close
+//@   ensures @closed nClose == 1
 //@   call 0 ParseBatchHeader as ph
 //@   call 0 ParseBatchHeader assert len(arg_0) == 0
 // the object's bytes are read in full (size + the trailing LF git appends)
@@ -503,6 +508,8 @@ package git
 //@   pure
 
 //@ property C10: (*ObjectIter).Next (*BatchObjectIter).Next (*ReferenceIter).Next
+// ... and the stages that feed those channels close them however they end
+//@ property C10: (*Repository).NewObjectIter$3@closed (*Repository).NewBatchObjectIter$2@closed (*Repository).NewReferenceIter$1@closed
 //@ property C01: (*ObjectIter).AddRoot (*BatchObjectIter).RequestObject
 
 // ---------------------------------------------------------------- pipeline stages of NewObjectIter (C01, C16)
@@ -528,6 +535,8 @@ package git
 
 //@ func (*Repository).NewObjectIter$3
 //@   modifies everything
+//@   ghost nClose counts close
+//@   ensures @closed nClose == 1
 //@   call 0 ParseBatchHeader as ph
 //@   call 0 ParseBatchHeader assert len(arg_0) == 0
 
@@ -539,6 +548,8 @@ package git
 // or a read error ends the stage with an error.
 //@ func (*Repository).NewReferenceIter$1
 //@   modifies everything
+//@   ghost nClose counts close
+//@   ensures @closed nClose == 1
 //@   call 0 ParseReference as pr
 //@   call 0 ParseReference assert len(arg_0) == len(line) - 1 && (forall k int :: 0 <= k && k < len(line) - 1 ==> arg_0[k] == line[k])
 
